@@ -36,8 +36,35 @@ def malformed(ty: int, p: bytes) -> bool:
     return False        # (Grouped: the library reads members with a too small length field leniently; not judged here)
 
 
+_TYPES: dict = {}
+
+
+def type_of(code: int, vendor: int):
+    if not _TYPES:
+        from realcodec import TY_TAG
+        for c, v, e in entries():
+            _TYPES[(c, v)] = TY_TAG.get(getattr(e.get("type"), "__name__", ""))
+    return _TYPES.get((code, vendor))
+
+
 def classify(line: str, r: str, fails: list, res: Result):
     cmd = line.split(" ", 1)[0]
+    if cmd == "MSGDEC" and not r.startswith("EXC") and " UNDEF " in r:
+        # a command without typed class: every top-level value has been read to build the attributes; a top-level AVP (found
+        # with the independent parser, header size by the V flag) whose payload is malformed for its dictionary type must have
+        # raised the decode error
+        try:
+            data = bytes.fromhex(line.split(" ")[1])
+            avps = gen.rfc_parse_avps(data[20:]) if len(data) >= 20 and int.from_bytes(data[1:4], "big") == len(data) else []
+        except (gen.WireError, ValueError):
+            avps = []
+        for code, vendor, _fl, payload in avps:
+            ty = type_of(code, vendor)
+            if ty is not None and malformed(ty, payload):
+                fails.append({"what": "a payload that is malformed for its type was read as a value instead of raising the "
+                                      "documented AVP decode error (top-level AVP of a command without typed class)",
+                              "line": line[:800], "real": r[:300], "avp": f"{code}.{vendor} type {ty} payload {payload.hex()[:40]}"})
+                return
     if cmd == "AVPVAL" and not r.startswith(("EXC", "UNSTABLE")):
         t = line.split(" ")
         if malformed(int(t[1]), bytes.fromhex(t[2]) if len(t) > 2 else b""):
